@@ -53,6 +53,23 @@ def load():
     return _loaded
 
 
+def reset_process_state():
+    """Module-level memoisation (functools caches) in the tree under check would leak from one
+    execution into the next inside a long-lived worker and make replays irreproducible: every
+    execution starts with such caches empty (a bug that needs a warm cache then has to warm it
+    within one history, which is what a user's process does too)."""
+    for name, mod in list(sys.modules.items()):
+        if mod is None or not (name == "traph" or name.startswith("traph.")):
+            continue
+        for attr in list(vars(mod).values()):
+            cc = getattr(attr, "cache_clear", None)
+            if callable(cc):
+                try:
+                    cc()
+                except Exception:
+                    pass
+
+
 # ----------------------------------------------------------------------------- scratch
 _scratch_root = None
 _scratch_owner = None
